@@ -112,7 +112,7 @@ WellFormed(w, h) ==
     LET ac == w.acct[a] IN
     /\ ac.bad = <<>>
     /\ \A k \in DOMAIN ac.esdt : EntryWF(k, ac.esdt[k])
-    /\ \A t \in DOMAIN ac.roles : NoDup(ac.roles[t]) /\ ac.roles[t] # <<>>
+    /\ \A t \in DOMAIN ac.roles : (IsDupTok(t) \/ NoDup(ac.roles[t])) /\ ac.roles[t] # <<>>
     /\ \A t \in DOMAIN ac.roles : (RoleCreate \in Range(ac.roles[t]) /\ ~IsDupTok(t)) => CtrOf(ac, t) >= MaxN(h, t)
     /\ \A t \in DOMAIN ac.ctr : ac.ctr[t] > 0
 \* C07: the create-role holder's counter covers every nonce ever issued; nobody else keeps a counter
